@@ -585,8 +585,16 @@ def make_old_version(pr):
     for c in pr.contents:
         other = next(x for x in sorted(pr.contents) if x != c and pr.ref[x] != pr.ref[c])
         data = pickle.loads(pr.pick[other])
-        data["internal_version"] = 0
-        pr.old[c] = pickle.dumps(data)
+        # the payload layout is the loader's business: a mapping with the version, a container holding such a
+        # mapping, or something else - then a bare version-0 mapping stands in (no loader may serve it)
+        target = data if isinstance(data, dict) else next(
+            (x for x in (data if isinstance(data, (list, tuple)) else ()) if isinstance(x, dict) and "internal_version" in x), None)
+        if target is not None and "internal_version" in target:
+            target["internal_version"] = 0
+            pr.old[c] = pickle.dumps(data)
+        else:
+            pr.old[c] = pickle.dumps({"internal_version": 0})
+            pr.notes = getattr(pr, "notes", []) + ["cache payload of %s is no mapping with internal_version: bare version-0 file used" % pr.t.name]
 
 
 def kind_of(sb, pr, c, w):
